@@ -91,10 +91,11 @@ Definition dv_changed (r : region) (d : Z * Z) : bool := oid (get_store_learner 
 Definition dv_finished (r : region) (d : Z * Z) : bool :=
   match get_store_learner r (fst d) with Some p => pid p =? snd d | None => false end.
 
-(* The identifier that ChangePeerV2Leave.ConfVerChanged hands to GetStorePeer.  The code passes
-   dv.PeerID (a peer id) where a store id is expected — S2.  The model mirrors the code. *)
+(* The expression that ChangePeerV2Leave.ConfVerChanged hands to GetStorePeer (local names canonicalised by the
+   translator: each#v(cpl.DemoteVoters) is the loop variable over the step's demotions).  Before the repair the code
+   passed the PEER id where a store id is expected (S2); the model mirrors whatever the source says. *)
 Definition leave_lookup_key (d : Z * Z) : Z :=
-  if String.eqb Gen_C08.leave_cvc_lookup_arg "dv.ToStore"%string then fst d else snd d.
+  if String.eqb Gen_C08.leave_cvc_lookup_arg "each#v(cpl.DemoteVoters).ToStore"%string then fst d else snd d.
 
 Definition conf_ver_changed (r : region) (s : step) : Z :=
   match s with
